@@ -321,7 +321,9 @@ rawPassProgram(TranslationTableOffset owner, const TranslationTableRule *r) {
 		if (!action && op == pass_endTest) action = 1;
 		ic += len;
 	}
-	if (!action) printf(" | X passdecode %u 0 %d noendtest", owner, ic);
+	/* a program without pass_endTest is possible (run-time addition of `context "a @1`: the unterminated
+	 * string swallows the separator; the error is logged but the rule is added) and harmless to the
+	 * image: passDoTest leaves its loop at dotslen */
 }
 
 static void
